@@ -1534,6 +1534,9 @@ func generate(rng *rand.Rand, tier string) []interface{} {
 	for n := 0; n < 22*mul; n++ {
 		ins = append(ins, parScenario(rng, n))
 	}
+	for n := 0; n < 4*mul; n++ {
+		ins = append(ins, quitRaceScenario(rng, n))
+	}
 
 	// (b) sequential REST histories
 	for n := 0; n < 45*mul; n++ {
@@ -1716,6 +1719,7 @@ func corpus() []interface{} {
 			}},
 			Scripts: [][]int{{0, 1, -1, 2, -1, -1}}},
 		parWitness(),
+		quitRaceWitness(),
 		streamWitness(),
 		// the same history on a single-use client is fine
 		input{Kind: "witness", Clients: []client{{Keep: false, Svc: true}}, Rounds: [][]req{
